@@ -1,4 +1,5 @@
 import CppUModel.Proofs.AllocLayout
+import CppUModel.Proofs.AllocLayoutInv
 /-!
 # C05 — tracked allocations return sound blocks for every size, or fail cleanly
 
@@ -11,6 +12,16 @@ Environment (explicit hypotheses): an answer of the platform is NULL or a block 
 requested length (`Ans.Ok`), a separately allocated node is a block different from the data block,
 `realloc` hands back the common prefix (`RAns.Ok`).  That two distinct blocks do not overlap is the
 platform's contract and is not a theorem.
+
+Second part (from `## the whole-history invariant`): the invariant `Inv` of the byte-level model is
+proved for every reachable state (`history_inv`, `step_preserves_inv`, `history_never_ub`), its
+meaning is spelled out (`inv_meaning`), and the realloc / release / pointer-identity theorems are
+derived from the invariant alone (`realloc_preserves_prefix_inv`, `realloc_failure_retracks_inv`,
+`release_exact`, `free_releases_exactly`, `delete_releases_exactly`,
+`returned_pointer_is_platform_pointer`, `realloc_to_zero`, `realloc_null_pointer_inv`).  The
+contract of a history is `OpOk` (Spec): fresh blocks of the requested length, realloc hands back the
+common prefix, clients release with the function of the block's family and store only into their
+user bytes; the two listed findings are excluded there by name.
 -/
 namespace AllocLayout
 open Gen.AllocLayout
@@ -361,7 +372,8 @@ theorem strdup_copies_exactly (c : Cfg) (h : NodeOk c) (img : NodeImage) (hi : I
   obtain ⟨n, hn⟩ := cstrlen_some_of_nul buf hnul
   obtain ⟨h1, h2, _⟩ := cstrlen_spec buf n hn
   have hcl : (cstrOf buf).length = n := by rw [← h2]; simp; omega
-  have hsz : (1#64 + BitVec.ofNat 64 n) = BitVec.ofNat 64 (n + 1) := by
+  have hsz : strdupLength (BitVec.ofNat 64 n) = BitVec.ofNat 64 (n + 1) := by
+    unfold strdupLength
     apply BitVec.eq_of_toNat_eq; simp [BitVec.toNat_add]; omega
   have hszn : (BitVec.ofNat 64 (n + 1)).toNat = n + 1 := by simp; omega
   unfold cStrdup
@@ -386,8 +398,8 @@ theorem strndup_copies_prefix (c : Cfg) (h : NodeOk c) (img : NodeImage) (hi : I
   have hcl : (cstrOf buf).length = len := by rw [← h2]; simp; omega
   have hk : ((cstrOf buf).take n.toNat).length = min n.toNat len := by simp [hcl]
   have hnlt := n.isLt
-  have hsz : strndupSize (BitVec.ofNat 64 len) n = BitVec.ofNat 64 (min n.toNat len + 1) := by
-    unfold strndupSize
+  have hsz : strndupLength (BitVec.ofNat 64 len) n = BitVec.ofNat 64 (min n.toNat len + 1) := by
+    unfold strndupLength
     apply BitVec.eq_of_toNat_eq
     have hl : (BitVec.ofNat 64 len).toNat = len := by simp; omega
     by_cases hlt : len < n.toNat
@@ -763,5 +775,336 @@ example :
     let s1 := (allocMemory defaultCfg img0 {} famNew 2#64 false (.block 1 (List.replicate 72 0)) .null).1
     (reallocMemory defaultCfg img0 s1 famNew (some 1) 5#64 false .null .null).2.2 = .null ∧
     (reallocMemory defaultCfg img0 s1 famNew (some 1) 5#64 false .null .null).1.trackedSet = [(1, 2#64)] := by decide
+
+/-! ## the whole-history invariant -/
+
+/-- The empty detector satisfies the invariant. -/
+theorem inv_empty (c : Cfg) : Inv c {} := inv_initial c
+
+/-- **Every public operation keeps the invariant and never reaches undefined behaviour**, for both
+    build configurations, every size, every answer of the platform that meets its contract
+    (`OpOk`), outside the two listed findings (which `OpOk` excludes by name). -/
+theorem step_preserves_inv (c : Cfg) (hn : NodeOk c) (img : NodeImage) (hi : ImgOk c img) (s : State) (h : Inv c s)
+    (op : Op) (hop : OpOk c s op) :
+    Inv c (step c img s op).1 ∧ (step c img s op).2.2.isUb = false :=
+  step_inv c hn img hi h op hop
+
+/-- **Every state reachable from the empty detector** through `new`/`new[]`/`malloc`/`calloc`/
+    `strdup`/`strndup`/`realloc`/`free`/`delete`/`delete[]` and client stores into user bytes, of
+    any length, satisfies the invariant. -/
+theorem history_inv (c : Cfg) (hn : NodeOk c) (img : NodeImage) (hi : ImgOk c img) (ops : List Op)
+    (hok : OpsOk c img {} ops) : Inv c (run c img {} ops) :=
+  run_inv c hn img hi ops {} (inv_initial c) hok
+
+/-- … and no operation of such a history reaches undefined behaviour (no write outside a block, no
+    NULL dereference): the last step of any history, hence every step. -/
+theorem history_never_ub (c : Cfg) (hn : NodeOk c) (img : NodeImage) (hi : ImgOk c img) (ops : List Op) (op : Op)
+    (hok : OpsOk c img {} (ops ++ [op])) :
+    (step c img (run c img {} ops) op).2.2.isUb = false := by
+  obtain ⟨h1, h2⟩ := opsOk_append c img ops {} op hok
+  exact (step_inv c hn img hi (history_inv c hn img hi ops h1) op h2).2
+
+/-- What the invariant says, spelled out: (1) tracked blocks are pairwise different platform blocks
+    and no record's node block is a tracked data block; (2) every tracked block is live, exactly as
+    long as it was requested, with at least `size` user bytes and the guard bytes intact behind
+    them; (3) the record is where the layout puts it: inline — inside the data block, behind the
+    guard bytes, 8-aligned; separate — in a live block of its own of the record's size. -/
+theorem inv_meaning (c : Cfg) (hn : NodeOk c) (s : State) (h : Inv c s) :
+    (s.tracked.map (·.id)).Nodup ∧
+    (∀ r ∈ s.tracked, ∀ r' ∈ s.tracked, r.sep = true → r.nodeId ≠ r'.id) ∧
+    (∀ r ∈ s.tracked, ∃ b, findBlock s.mem r.id = some b ∧
+        b.bytes.length = (allocReq c r.sep r.size).toNat ∧
+        r.size.toNat + c.guard.toNat ≤ b.bytes.length ∧
+        (b.bytes.drop r.size.toNat).take c.guard.toNat = guardImage c ∧
+        (r.sep = false → (guardIv c r.size).disjoint (nodeIv c r.size) ∧ (nodeIv c r.size).inside b.bytes.length ∧
+            (c.check = true → (nodeIv c r.size).1 % 8 = 0)) ∧
+        (r.sep = true → ∃ nb, findBlock s.mem r.nodeId = some nb ∧ nb.bytes.length = c.node.toNat)) := by
+  refine ⟨(ids_sublist_owned s.tracked).nodup h.nodup, ?_, ?_⟩
+  · intro r hr r' hr' hs he
+    have h1 : r.nodeId ∈ r.owned := by unfold Rec.owned; simp [hs]
+    have h2 : r.nodeId ∈ r'.owned := by rw [he]; exact id_mem_owned r'
+    have : r = r' := owned_inj h.nodup hr hr' h1 h2
+    subst this
+    exact ((h.recs r hr).node.1 hs).1 he
+  · intro r hr
+    have ok := h.recs r hr
+    obtain ⟨b, hb, hl, hg⟩ := ok.blk
+    have lay := layout_sound c hn r.size r.sep ok.acc
+    refine ⟨b, hb, hl, ?_, hg, ?_, fun hs => (ok.node.1 hs).2⟩
+    · rw [hl]; exact (usable_bytes_ge_request c hn r.size r.sep ok.acc).1
+    · intro hs
+      rw [hl]
+      exact ⟨lay.2.1, lay.2.2.2.2.2.1 hs, lay.2.2.2.2.2.2⟩
+
+/-! ## realloc of a tracked block, from the invariant alone -/
+
+/-- **`cpputest_realloc` of any tracked malloc-family block that the platform moves**: in every
+    reachable state (`Inv`), under the platform contract, the result is the new block, tracked in
+    place of the old one, its first `min old new` user bytes are the old block's, and the invariant
+    holds again.  No hypothesis about the table lookup or the guard check is left: both follow from
+    the invariant. -/
+theorem realloc_preserves_prefix_inv (c : Cfg) (hn : NodeOk c) (img : NodeImage) (hi : ImgOk c img) (s : State) (h : Inv c s)
+    (o : Rec) (ho : o ∈ s.tracked) (hfam : o.fam = famMalloc) (size : W) (nid : Nat) (nb : List UInt8) (k : Nat) (kb : List UInt8)
+    (hacc : rejectsRealloc c size = false)
+    (har : RAns.EnvOk s.mem (some o.id) (reallocReq c true size).toNat (.moved nid nb))
+    (hkl : kb.length = c.node.toNat) (hkf : Fresh s.mem k) (hkn : k ≠ nid) :
+    ∃ s' evs rest, cRealloc c img s (some o.id) size (.moved nid nb) (.block k kb) = (s', evs, .ptr nid) ∧
+      removeRec s.tracked o.id = some (o, rest) ∧
+      s'.trackedSet = (nid, size) :: rest.map (fun r => (r.id, r.size)) ∧
+      userView s' nid (min o.size.toNat size.toNat) = userView s o.id (min o.size.toNat size.toNat) ∧
+      Inv c s' := by
+  obtain ⟨rest, hrem⟩ := removeRec_of_tracked c h ho
+  obtain ⟨_, _, hcfc, _, ⟨ob, hob1, hob, hol, _⟩, hoacc, _⟩ := realloc_old_record c h hrem hfam
+  obtain ⟨hl, _, hpre⟩ := har
+  have hosz : o.size.toNat ≤ ob.bytes.length := by
+    have := (usable_bytes_ge_request c hn o.size true hoacc).1
+    omega
+  have hfs := forcedSep_true' c
+  obtain ⟨s', evs, he, ht, hv⟩ := realloc_preserves_prefix c hn img hi s famMalloc o.id size true nid nb (.block k kb)
+    o rest (dropBlock s.mem o.nodeId) [.unodefree o.nodeId] ob hacc hrem (by rw [hfs]; exact hcfc) hob1 hosz
+    (by rw [hfs]; exact ⟨hl, hpre o.id ob rfl hob⟩) (fun _ => ⟨k, kb, rfl, hkl, hkn⟩)
+  have hinv := (cRealloc_inv c hn img hi h (some o.id) size (.moved nid nb) (.block k kb)
+    (fun id hid r hr hrid => by
+      cases hid
+      have : r = o := owned_inj h.nodup hr ho (id_mem_owned r) (by rw [hrid]; exact id_mem_owned o)
+      rw [this]; exact hfam)
+    ⟨hl, ‹_›, hpre⟩ hkl hkf (Or.inr hkn) (by simp)).1
+  refine ⟨s', evs, rest, he, hrem, ht, ?_, ?_⟩
+  · rw [hv]; unfold userView; rw [hob]; rfl
+  · have : cRealloc c img s (some o.id) size (.moved nid nb) (.block k kb) = (s', evs, .ptr nid) := he
+    rw [this] at hinv; exact hinv
+
+/-- **A failing `PlatformSpecificRealloc` on any tracked malloc-family block** (node block
+    available): NULL, the old block is tracked again with its old size, its bytes are untouched, every
+    other block is untouched, the invariant holds again. -/
+theorem realloc_failure_retracks_inv (c : Cfg) (hn : NodeOk c) (img : NodeImage) (hi : ImgOk c img) (s : State) (h : Inv c s)
+    (o : Rec) (ho : o ∈ s.tracked) (hfam : o.fam = famMalloc) (size : W) (k : Nat) (kb : List UInt8)
+    (hacc : rejectsRealloc c size = false) (hkl : kb.length = c.node.toNat) (hkf : Fresh s.mem k) :
+    ∃ s' evs rest, cRealloc c img s (some o.id) size .null (.block k kb) = (s', evs, .null) ∧
+      removeRec s.tracked o.id = some (o, rest) ∧
+      s'.trackedSet = (o.id, o.size) :: rest.map (fun r => (r.id, r.size)) ∧
+      (∀ j, j ≠ k → j ≠ o.nodeId → findBlock s'.mem j = findBlock s.mem j) ∧
+      Inv c s' := by
+  obtain ⟨rest, hrem⟩ := removeRec_of_tracked c h ho
+  obtain ⟨_, _, hcfc, _, _, _⟩ := realloc_old_record c h hrem hfam
+  have hfs := forcedSep_true' c
+  obtain ⟨s', evs, he, ht, hfr⟩ := realloc_failure_retracks_separate c img hi s famMalloc o.id size true k kb o rest
+    (dropBlock s.mem o.nodeId) [.unodefree o.nodeId] hacc hfs hrem hcfc hkl
+  have hinv := (cRealloc_inv c hn img hi h (some o.id) size .null (.block k kb)
+    (fun id hid r hr hrid => by
+      cases hid
+      have : r = o := owned_inj h.nodup hr ho (id_mem_owned r) (by rw [hrid]; exact id_mem_owned o)
+      rw [this]; exact hfam)
+    trivial hkl hkf trivial (by simp)).1
+  have he' : cRealloc c img s (some o.id) size .null (.block k kb) = (s', evs, .null) := he
+  rw [he'] at hinv
+  refine ⟨s', evs, rest, he', hrem, ht, ?_, hinv⟩
+  intro j hj1 hj2
+  rw [hfr j hj1, findBlock_dropBlock_ne hj2]
+
+/-! ## release: `cpputest_free`, `operator delete`, `operator delete[]` -/
+
+/-- **Releasing any tracked block with the release function of its family**, in every reachable
+    state and in both layouts: nothing is reported; the platform's `free_memory` is called exactly
+    once and with the very pointer the client holds (= the pointer the platform handed out: block
+    `r.id` at offset 0), after `freeMemoryLeakNode` for a separately kept node; exactly this record
+    leaves the table; exactly its data block (and node block) leave the memory; every other block
+    is untouched; the invariant holds again. -/
+theorem release_exact (c : Cfg) (hn : NodeOk c) (s : State) (h : Inv c s) (r : Rec) (hr : r ∈ s.tracked)
+    (sep0 : Bool) (hsep0 : sep0 = (r.fam == famMalloc)) :
+    ∃ s' rest, release c s r.fam (some r.id) sep0 =
+        (s', (if r.sep then [.unodefree r.nodeId] else []) ++ [.ufree r.id], .null) ∧
+      removeRec s.tracked r.id = some (r, rest) ∧ s'.tracked = rest ∧
+      findBlock s'.mem r.id = none ∧ (r.sep = true → findBlock s'.mem r.nodeId = none) ∧
+      (∀ j, j ∉ r.owned → findBlock s'.mem j = findBlock s.mem j) ∧ Inv c s' := by
+  obtain ⟨rest, hrem⟩ := removeRec_of_tracked c h hr
+  obtain ⟨m', he, hinv, h1, h2, h3⟩ := release_tracked c hn h hrem rfl hsep0
+  exact ⟨_, rest, he, hrem, rfl, h1, h2, h3, hinv⟩
+
+/-- `cpputest_free(p)` of a tracked malloc-family block -/
+theorem free_releases_exactly (c : Cfg) (hn : NodeOk c) (s : State) (h : Inv c s) (r : Rec) (hr : r ∈ s.tracked)
+    (hfam : r.fam = famMalloc) :
+    ∃ s' rest, cFree c s (some r.id) = (s', [.unodefree r.nodeId, .ufree r.id], .null) ∧
+      removeRec s.tracked r.id = some (r, rest) ∧ s'.tracked = rest ∧
+      findBlock s'.mem r.id = none ∧ findBlock s'.mem r.nodeId = none ∧
+      (∀ j, j ≠ r.id → j ≠ r.nodeId → findBlock s'.mem j = findBlock s.mem j) ∧ Inv c s' := by
+  have hsep : r.sep = true := by rw [(h.recs r hr).lay, hfam]; exact sepOf_malloc c
+  obtain ⟨s', rest, he, hrem, ht, h1, h2, h3, hinv⟩ := release_exact c hn s h r hr true (by rw [hfam]; rfl)
+  rw [hfam, hsep] at he
+  refine ⟨s', rest, he, hrem, ht, h1, h2 hsep, ?_, hinv⟩
+  intro j hj1 hj2
+  exact h3 j (by unfold Rec.owned; simp [hsep, hj1, hj2])
+
+/-- `operator delete(p)` / `operator delete[](p)` of a tracked block of that family: in the default
+    build the record is inline and only `free_memory(p)` is called; without guard bytes the node is
+    separate and is handed back first -/
+theorem delete_releases_exactly (c : Cfg) (hn : NodeOk c) (s : State) (h : Inv c s) (r : Rec) (hr : r ∈ s.tracked)
+    (array : Bool) (hfam : r.fam = (if array then famNewArray else famNew)) :
+    ∃ s' rest, operatorDelete c s array (some r.id) =
+        (s', (if c.check then [] else [.unodefree r.nodeId]) ++ [.ufree r.id], .null) ∧
+      r.sep = !c.check ∧
+      removeRec s.tracked r.id = some (r, rest) ∧ s'.tracked = rest ∧
+      findBlock s'.mem r.id = none ∧
+      (∀ j, j ∉ r.owned → findBlock s'.mem j = findBlock s.mem j) ∧ Inv c s' := by
+  have hnm : (r.fam == famMalloc) = false := by rw [hfam]; cases array <;> decide
+  have hsep : r.sep = !c.check := by
+    rw [(h.recs r hr).lay]; unfold sepOf forcedSep; rw [hnm]; simp
+  obtain ⟨s', rest, he, hrem, ht, h1, _, h3, hinv⟩ := release_exact c hn s h r hr false hnm.symm
+  refine ⟨s', rest, ?_, hsep, hrem, ht, h1, h3, hinv⟩
+  unfold operatorDelete
+  rw [← hfam, he, hsep]
+  cases c.check <;> rfl
+
+/-- releasing NULL or a pointer the detector does not track changes nothing (the latter is reported) -/
+theorem release_untracked_leaves_state (c : Cfg) (s : State) (fam : Nat) (sep0 : Bool) :
+    release c s fam none sep0 = (s, [], .null) ∧
+    ∀ id, (∀ r ∈ s.tracked, r.id ≠ id) → release c s fam (some id) sep0 = (s, [.misuse "nonallocated"], .null) := by
+  refine ⟨by simp [release, invalidateMemory, deallocMemory], ?_⟩
+  intro id hid
+  have hrem : removeRec s.tracked id = none := by
+    cases hr : removeRec s.tracked id with
+    | none => rfl
+    | some p =>
+      obtain ⟨r, rest⟩ := p
+      obtain ⟨hp, hrid⟩ := removeRec_perm s.tracked id r rest hr
+      exact absurd hrid (hid r (hp.mem_iff.mpr (by simp)))
+  have hret : retrieveRec s.tracked id = none := by rw [removeRec_retrieve, hrem]; rfl
+  unfold release invalidateMemory
+  simp only [hret]
+  unfold deallocMemory
+  simp only [hrem]
+
+/-! ## the pointer handed to the caller is the pointer the platform returned -/
+
+/-- **In every reachable state and both layouts, the pointer a successful allocation hands to the
+    caller is the block the platform returned for this very call, at offset 0** (a model pointer is
+    a block: `Outcome.ptr id` is the first byte of block `id`; the C++ side — `node->init` stores
+    `memory`, `return node->memory_` — is shape-checked by the translator and the offset is observed
+    by the harness).  The caller's pointer therefore has exactly the platform's alignment; and it is
+    the pointer later handed to `free_memory` (`release_exact`). -/
+theorem returned_pointer_is_platform_pointer (c : Cfg) (hn : NodeOk c) (img : NodeImage) (hi : ImgOk c img) (s : State)
+    (h : Inv c s) (op : Op) (hop : OpOk c s op) (id : Nat) (hp : (step c img s op).2.2 = .ptr id) :
+    op.platformBlock = id := by
+  cases op with
+  | new v size a1 a2 =>
+    obtain ⟨_, henv, hnf⟩ := hop
+    rcases operatorNew_inv c hn img hi h v size a1 a2 henv hnf with hr | ⟨hb, _, _⟩
+    · obtain ⟨e, nd, ht⟩ := hr.onPtr id hp
+      exact e
+    · rw [show (step c img s (.new v size a1 a2)).2.2 = _ from hb] at hp; cases hp
+  | malloc size a1 a2 =>
+    obtain ⟨e, nd, ht⟩ := (cMalloc_inv c hn img hi h size a1 a2 hop).onPtr id hp
+    exact e
+  | calloc num size a1 a2 =>
+    obtain ⟨e, nd, ht⟩ := (cCalloc_inv c hn img hi h num size a1 a2 hop).onPtr id hp
+    exact e
+  | strdup buf a1 a2 =>
+    obtain ⟨h1, h2, henv⟩ := hop
+    obtain ⟨e, nd, ht⟩ := (cStrdup_inv c hn img hi h buf a1 a2 h1 h2 henv).onPtr id hp
+    exact e
+  | strndup buf n a1 a2 =>
+    obtain ⟨h1, h2, henv⟩ := hop
+    obtain ⟨e, nd, ht⟩ := (cStrndup_inv c hn img hi h buf n a1 a2 h1 h2 henv).onPtr id hp
+    exact e
+  | realloc ptr size ar a2 =>
+    exact reallocMemory_ptr c img s famMalloc ptr size true ar a2 id hp
+  | free ptr =>
+    have := (release_inv c hn h famMalloc ptr true rfl hop).2
+    rw [show (step c img s (.free ptr)).2.2 = _ from this] at hp; cases hp
+  | delete array ptr =>
+    have := (release_inv c hn h (if array then famNewArray else famNew) ptr false (by cases array <;> decide) hop).2
+    rw [show (step c img s (.delete array ptr)).2.2 = _ from this] at hp; cases hp
+  | write id' off src =>
+    exfalso
+    revert hp
+    show (clientWrite s id' off src).2.2 = .ptr id → False
+    unfold clientWrite
+    split <;> simp
+
+/-! ## `realloc(p, 0)` and `realloc(NULL, n)` -/
+
+/-- the platform is never asked for 0 bytes, in either build and either layout (a zero-byte
+    `realloc` may free the block although NULL is returned: the repaired defect of the build without
+    guard bytes) -/
+theorem request_never_zero (c : Cfg) (hn : NodeOk c) (size : W) (sep : Bool) (hacc : rejectsAlloc c size = false) :
+    1 ≤ (allocReq c sep size).toNat ∧ 1 ≤ (reallocReq c sep size).toNat := by
+  have hreq := allocReq_toNat_acc c hn size sep hacc
+  have : 1 ≤ swciNat c size.toNat := by
+    unfold swciNat alignNat
+    split
+    · omega
+    · split <;> omega
+  rw [reallocReq_eq, hreq]
+  unfold extNat
+  split <;> omega
+
+/-- a request for 0 bytes is an ordinary, accepted request -/
+theorem zero_size_accepted (c : Cfg) (hn : NodeOk c) : rejectsAlloc c 0#64 = false ∧ rejectsRealloc c 0#64 = false := by
+  have := small_accepted c hn 0#64 (by simp)
+  exact ⟨this, by rw [rejectsRealloc_eq]; exact this⟩
+
+/-- **`cpputest_realloc(p, 0)` of any tracked block**: the platform realloc is asked for at least one
+    byte; when it answers, the new (empty) block replaces the old one in the table, nothing of the
+    old contents needs to survive, and the invariant holds. -/
+theorem realloc_to_zero (c : Cfg) (hn : NodeOk c) (img : NodeImage) (hi : ImgOk c img) (s : State) (h : Inv c s)
+    (o : Rec) (ho : o ∈ s.tracked) (hfam : o.fam = famMalloc) (nid : Nat) (nb : List UInt8) (k : Nat) (kb : List UInt8)
+    (har : RAns.EnvOk s.mem (some o.id) (reallocReq c true 0#64).toNat (.moved nid nb))
+    (hkl : kb.length = c.node.toNat) (hkf : Fresh s.mem k) (hkn : k ≠ nid) :
+    1 ≤ (reallocReq c true 0#64).toNat ∧
+    ∃ (s' : State) (evs : List Ev) (rest : List Rec), cRealloc c img s (some o.id) 0#64 (.moved nid nb) (.block k kb) = (s', evs, .ptr nid) ∧
+      s'.trackedSet = (nid, 0#64) :: rest.map (fun r => (r.id, r.size)) ∧ Inv c s' := by
+  obtain ⟨ha, hr⟩ := zero_size_accepted c hn
+  obtain ⟨s', evs, rest, he, _, ht, _, hinv⟩ :=
+    realloc_preserves_prefix_inv c hn img hi s h o ho hfam 0#64 nid nb k kb hr har hkl hkf hkn
+  exact ⟨(request_never_zero c hn 0#64 true ha).2, s', evs, rest, he, ht, hinv⟩
+
+/-- **`cpputest_realloc(NULL, n)`** in any reachable state behaves as `cpputest_malloc(n)`: the
+    platform realloc's block is tracked with size `n` on top of what was tracked, the invariant holds. -/
+theorem realloc_null_pointer_inv (c : Cfg) (hn : NodeOk c) (img : NodeImage) (hi : ImgOk c img) (s : State) (h : Inv c s)
+    (size : W) (nid : Nat) (nb : List UInt8) (k : Nat) (kb : List UInt8)
+    (hacc : rejectsRealloc c size = false)
+    (hl : nb.length = (reallocReq c true size).toNat) (hnf : Fresh s.mem nid)
+    (hkl : kb.length = c.node.toNat) (hkf : Fresh s.mem k) (hkn : k ≠ nid) :
+    ∃ s' evs, cRealloc c img s none size (.moved nid nb) (.block k kb) = (s', evs, .ptr nid) ∧
+      s'.trackedSet = (nid, size) :: s.trackedSet ∧ Inv c s' := by
+  obtain ⟨s', evs, he, ht⟩ := realloc_null_pointer_allocates c hn img hi s famMalloc size true nid nb (.block k kb) hacc
+    (by rw [forcedSep_true' c]; exact hl) (fun _ => ⟨k, kb, rfl, hkl, hkn⟩)
+  have hinv := (cRealloc_inv c hn img hi h none size (.moved nid nb) (.block k kb)
+    (fun id hid => nomatch hid) ⟨hl, Or.inl hnf, fun oid b hx => nomatch hx⟩ hkl hkf (Or.inr hkn) (by simp)).1
+  have he' : cRealloc c img s none size (.moved nid nb) (.block k kb) = (s', evs, .ptr nid) := he
+  rw [he'] at hinv
+  exact ⟨s', evs, he', ht, hinv⟩
+
+/-- `cpputest_realloc(NULL, n)` with a failing platform realloc: NULL, nothing changes -/
+theorem realloc_null_pointer_failure (c : Cfg) (img : NodeImage) (s : State) (size : W) (a2 : Ans)
+    (hacc : rejectsRealloc c size = false) :
+    cRealloc c img s none size .null a2 = (s, [.urealloc 0 (reallocReq c true size) 0], .null) := by
+  unfold cRealloc reallocMemory
+  simp only [hacc, Bool.false_eq_true, if_false, forcedSep_true' c]
+  unfold reallocRest
+  rfl
+
+/-! ## non-vacuity of the history theorems -/
+
+def img1 : NodeImage := fun _ => List.replicate 64 0x4e
+
+/-- a concrete history that meets the contract: malloc, a client store, realloc that moves, free -/
+def demoOps : List Op :=
+  [ .malloc 5#64 (.block 1 (List.replicate 16 0)) (.block 2 (List.replicate 64 0)),
+    .write 1 0 [104, 105],
+    .realloc (some 1) 9#64 (.moved 3 ([104, 105, 0, 0, 0, 66, 65, 83] ++ List.replicate 8 0)) (.block 4 (List.replicate 64 0)),
+    .free (some 3) ]
+
+example : (run defaultCfg img1 {} demoOps).tracked = [] := by decide
+example : ((run defaultCfg img1 {} (demoOps.take 3)).tracked.map (fun r => (r.id, r.size))) = [(3, 9#64)] := by decide
+example : userView (run defaultCfg img1 {} (demoOps.take 3)) 3 2 = some [104, 105] := by decide
+
+/-- the first step of that history meets its contract (fresh blocks of the requested lengths) -/
+example : OpOk defaultCfg {} (.malloc 5#64 (.block 1 (List.replicate 16 0)) (.block 2 (List.replicate 64 0))) :=
+  { len1 := by show (List.replicate 16 (0 : UInt8)).length = _; decide
+    len2 := by show (List.replicate 64 (0 : UInt8)).length = _; decide
+    fresh1 := fun b hb => nomatch hb
+    fresh2 := fun b hb => nomatch hb
+    differ := Or.inr (by decide) }
 
 end AllocLayout
